@@ -21,7 +21,9 @@ def routed : Stmt → Bool
 
 /-- **C17.frame**: a DDL/DML/SELECT/SHOW statement changes at most the selected database: the
 selection, the set of databases and every other database's pages and log are exactly what they
-were - whatever the statement does, succeeds or fails. -/
+were - whatever the statement does, succeeds or fails.  (A SELECT is evaluated on the selected database -
+the session model no longer has a stub there - and changes NOTHING, the selected database included,
+whatever it returns: `exec_select_fst`.) -/
 theorem C17_frame (s : Sess) (st : Stmt) (h : routed st = true) :
     (exec s st).1.cur = s.cur ∧ names (exec s st).1 = names s ∧
     ∀ m, s.cur ≠ some m → getDB (exec s st).1 m = getDB s m := by
@@ -34,8 +36,9 @@ theorem C17_frame (s : Sess) (st : Stmt) (h : routed st = true) :
   | update t sets w => exact onCurrent_frame s _
   | delete t w => exact onCurrent_frame s _
   | select q =>
-    simp only [exec]
-    split <;> exact ⟨rfl, rfl, fun _ _ => rfl⟩
+    -- (the session model now evaluates the query: whatever the outcome, the session is the same)
+    rw [exec_select_fst]
+    exact ⟨rfl, rfl, fun _ _ => rfl⟩
 
 /-- **C17.no_database_selected**: without a selected database every routed statement other than
 SHOW DATABASES is an error that changes nothing. -/
@@ -378,7 +381,8 @@ theorem C17_create_database_adds_an_empty_database (s : Sess) (w : String → Sp
 refused at a later row - the contents of every database other than the selected one are what they were
 (each database holds only what was written while it was selected), and the invariant holds again.
 `StmtSide`: the side conditions of the statement-level theorems for the selected database
-(`C18_session_statement_never_crashes`). -/
+(`C18_session_statement_never_crashes`; for a SELECT - now evaluated by the session model - a select list of
+a shape the parser builds and a FROM clause over user tables: `SelectSide`). -/
 theorem C17_statements_change_only_the_selected_database (s : Sess) (w : String → Spec.SDB) (h : SessAbs s w)
     (st : Stmt) (hside : StmtSide s st) :
     ∃ w', SessAbs (exec s st).1 w' ∧ ∀ m, s.cur ≠ some m → (getDB s m).isSome = true → w' m = w m := by
@@ -432,12 +436,14 @@ theorem C17_restart_after_any_history (sts : List Stmt) (hok : SessOK {} sts) :
   exact ⟨k2, w', k1⟩
 
 /-- non-vacuity of `SessOK`: every history of CREATE DATABASE / USE / SHOW DATABASES / SELECT / DELETE /
-UPDATE statements meets it (`sessOK_plain`, `C18_plain_histories_never_crash`) -/
-example : SessOK {} [.createDatabase [100], .use [100], .delete tname none, .use [120], .showDatabases] :=
+UPDATE statements meets it (`sessOK_plain`, `C18_plain_histories_never_crash`; a SELECT - here `SELECT * FROM
+t`, evaluated on the selected database - with a select list of a parser-produced shape over user tables) -/
+example : SessOK {} [.createDatabase [100], .use [100], .delete tname none,
+    .select { list := [⟨.star, []⟩], from_ := some (.table ⟨tname, none⟩) }, .use [120], .showDatabases] :=
   sessOK_plain _ _ (fun st hst => by
     simp only [List.mem_cons, List.not_mem_nil, or_false] at hst
-    rcases hst with rfl | rfl | rfl | rfl | rfl
-    all_goals first | exact trivial | exact tname_ne_sys)
+    rcases hst with rfl | rfl | rfl | rfl | rfl | rfl
+    all_goals first | exact trivial | exact tname_ne_sys | exact ⟨.inl ⟨[], rfl⟩, by decide +kernel⟩)
 
 /-- non-vacuity: the session whose selected database is the one `CREATE DATABASE; CREATE TABLE t (a INT)`
 produces abstracts to the plain database with the empty table `t (a INT)`; `INSERT INTO t VALUES (5),
